@@ -58,6 +58,9 @@ FSTRING_PROGRAMS = [
     ("loop-else-break", "n = 0\nwhile n < 3:\n    n += 1\n    if n == 2:\n        break\nelse:\n    print('no break')\nprint(n)\ndef f():\n    i = 0\n    while i < 3:\n        i += 1\n        if i == 2:\n            return i\n    else:\n        return -1\nprint(f())\nfor k in [1, 2]:\n    if k == 2:\n        break\nelse:\n    print('for no break')\nprint(k)\nm = 0\nwhile m < 2:\n    m += 1\nelse:\n    print('else ran', m)\n"),
     # comprehensions in class bodies: their own table exists only on hosts <= 3.11 (inlined since 3.12)
     ("class-comprehension-reads-global", "x = 'm'\nclass K:\n    y = [x + str(i) for i in range(2)]\n    z = {i: x for i in range(1)}\nprint(K.y, K.z)\n"),
+    # one kind of comprehension per class, each reading a global (and a builtin) the class body mentions nowhere else
+    ("class-each-comprehension-kind", "g1 = 'a'\ng2 = 'b'\ng3 = 'c'\ng4 = 'd'\nclass L:\n    v = [g1 for _ in range(1)]\nclass S:\n    v = sorted({g2 + str(i) for i in range(2)})\n"
+     "class D:\n    v = {i: g3 for i in range(1)}\nclass G:\n    v = list(g4 for _ in range(1))\nclass N:\n    v = [sorted({len(g1) + j for j in range(i)}) for i in range(2)]\nprint(L.v, S.v, D.v, G.v, N.v)\n"),
     ("class-comprehension-beside-member", "x = 'm'\nclass K:\n    x = 'k'\n    c = [x for _ in [0]]\n    d = [a for a in x]\nprint(K.c, K.d)\n"),
     ("starred-index-load-in-function", "def f(d, t):\n    return d[(*t, 3)]\nprint(f({(1, 2, 3): 'x'}, (1, 2)))\n"),
 ]
